@@ -10,6 +10,7 @@ import Goat.Driver.IntMap
 import Goat.Driver.CF
 import Goat.Driver.Call
 import Goat.Driver.Slice
+import Goat.Driver.Str
 /-! goatmodel: one operation per input line, one canonical output line per operation. -/
 open Goat.Driver
 
@@ -26,6 +27,7 @@ def step (st : DriverState) (line : String) : DriverState × String :=
   | "load" :: args => (st, loadCmd args)
   | "tsort" :: args => (st, tsortCmd args)
   | "opt" :: args => (st, optCmd args)
+  | "str" :: args => (st, strCmd args)
   | "slice" :: args => let (s, o) := sliceCmd st.slice args; ({ st with slice := s }, o)
   | "call" :: args => (st, callCmd args)
   | "cf" :: args => (st, cfCmd args)
